@@ -13,6 +13,7 @@ package main
 //   (race ID steps  NG PLUGIN (calls ...))                 the c11steps plugin and call syntax
 //   (race ID errs|structs|xstruct ...), the (cs) operation                 see c13_race2.go
 //   (race ID lazy unlinked NG OBJECT (ops (gd fwd|rev)|(u V)|...))         see c13_race3.go
+//   (race ID loads mixed NG (insts ...) (ops (ld scope|schema V)|(on I OP)...))   see c13_race4.go
 //   observation: (t ID same N) | (t ID (diff (G I GOT WANT)...)) ; stderr carries "@@trial ID" /
 //   "@@end ID" markers around the race detector's reports.
 
@@ -185,6 +186,9 @@ func runRaceTrial(p *sx.Node) *sx.Node {
 		return r
 	}
 	if r := runRaceTrial3(id, p); r != nil {
+		return r
+	}
+	if r := runRaceTrial4(id, p); r != nil {
 		return r
 	}
 	switch p.List[2].Atom {
@@ -412,6 +416,8 @@ func init() {
 					emit(c13GenXStruct(r, next(), pick(r, ngs)))
 				}
 			}
+			// c13_race4.go: rejected loads and failing operations next to healthy instances (after all other kinds)
+			c13EmitLoads(r, tier, next, emit)
 		},
 		Run: runRaceTrial,
 	}
